@@ -15,12 +15,15 @@ import Driver.Util
     verc <0|1> <hex>         -> same, for a single component
 
   Section B (lint):
-    lint <opts> <rules> <schema>  -> clean=<0|1> dirty=<RULE,…|-> <RULE>@<hexfile>@<path>;…   (sorted, deduplicated)
+    lint <opts> <rules> <schema>  -> clean=<0|1> dirty=<RULE,…|-> names=<0|1> <RULE>@<hexfile>@<path>;…   (sorted, deduplicated)
   `clean` = `cleanB` of the configured rules; `dirty` = the configured rules whose Clean condition
   (`cleanRule`: grammars, pairwise agreement, flags — NOT the model's own annotation list) fails, in
   the order of <rules>.  The harness prints, from its side, the rules of the annotations that the
   planting operator's DOCUMENTATION-level expectation names: the line compares the model's Clean
-  specification with the operator's intent, independently of `lint`.
+  specification with the operator's intent, independently of `lint`.  `names` = the methods of the
+  non-import files have pairwise distinct fully-qualified names (`FullNamesDistinct`: the hypothesis
+  of the RPC_REQUEST_RESPONSE_UNIQUE theorems, and what `FullNameToMethod` demands); the harness
+  prints it from its own schema.
   see Driver.C05.parseSchema for the schema grammar.
 -/
 namespace Driver.C05
@@ -246,7 +249,8 @@ def lintLine (optsS rulesS schemaS : String) : String :=
     -- (independent of `anns`): which configured rules are not Clean on this workspace
     let dirty := rules.filter fun r => !cleanRule opts w r
     let dirtyS := if dirty.isEmpty then "-" else ",".intercalate (dirty.map Rule.id)
-    s!"clean={clean} dirty={dirtyS} " ++ ";".intercalate (sortDedup strs)
+    let names := if strsDistinct ((rpcEntries w).map (·.full)) then "1" else "0"
+    s!"clean={clean} dirty={dirtyS} names={names} " ++ ";".intercalate (sortDedup strs)
   | _, _ => "bad-op"
 
 def handle : List String → String
